@@ -397,7 +397,18 @@ impl FromStr for HandRange {
 
 impl FromIterator<(CardPair, f32)> for HandRange {
     fn from_iter<T: IntoIterator<Item = (CardPair, f32)>>(iter: T) -> Self {
-        HandRange(iter.into_iter().collect())
+        // -0.0 is numerically zero but is displayed as "-0", which the range notation cannot
+        // express; keep it as 0.0 so that equal ranges are displayed, and parsed back, identically.
+        HandRange(
+            iter.into_iter()
+                .map(|(card_pair, probability)| {
+                    (
+                        card_pair,
+                        if probability == 0.0 { 0.0 } else { probability },
+                    )
+                })
+                .collect(),
+        )
     }
 }
 
